@@ -175,6 +175,9 @@ type ctConfig struct {
 	Skew   uint64
 	Algo   int
 	Wasm   bool
+	// LeadingZeros > 0: the counter/instant is searched so that the expected code begins with that many '0'
+	// (zero padding is derived from the HMAC output, so work that depends on it is secret-dependent too)
+	LeadingZeros int
 }
 
 func (g ctConfig) String() string {
@@ -182,7 +185,11 @@ func (g ctConfig) String() string {
 	if g.Wasm {
 		w = "wasm-binding:"
 	}
-	return fmt.Sprintf("%s%s/digits=%d/window=%d/hash=%d", w, g.Target, g.Digits, g.Skew, g.Algo)
+	z := ""
+	if g.LeadingZeros > 0 {
+		z = fmt.Sprintf("/expected-code-has-%d-leading-zeros", g.LeadingZeros)
+	}
+	return fmt.Sprintf("%s%s/digits=%d/window=%d/hash=%d%s", w, g.Target, g.Digits, g.Skew, g.Algo, z)
 }
 
 // buildCTCases builds, for one configuration, the wrong codes W_k whose first differing character is at k.
@@ -199,10 +206,16 @@ func buildCTCases(rng *gen.RNG, g ctConfig, count bool, id *int) []ctCase {
 	switch g.Target {
 	case "hotp":
 		base.Counter = 1000 + uint64(rng.Intn(1000))
+		for tries := 0; g.LeadingZeros > 0 && tries < 2000000 && !strings.HasPrefix(ref.HOTP(key, base.Counter, g.Digits, g.Algo), strings.Repeat("0", g.LeadingZeros)); tries++ {
+			base.Counter++
+		}
 		window = ref.HOTPWindow(key, base.Counter, g.Skew, g.Digits, g.Algo)
 		E = ref.HOTP(key, base.Counter, g.Digits, g.Algo)
 	case "totp":
 		base.Unix, base.Period = 1700000000+int64(rng.Intn(100000)), 30
+		for tries := 0; g.LeadingZeros > 0 && tries < 2000000 && !strings.HasPrefix(ref.TOTP(key, base.Unix, 30, g.Digits, g.Algo), strings.Repeat("0", g.LeadingZeros)); tries++ {
+			base.Unix += 30
+		}
 		st := ref.Step(base.Unix, 30)
 		window = ref.HOTPWindow(key, st, g.Skew, g.Digits, g.Algo)
 		E = ref.HOTP(key, st, g.Digits, g.Algo)
@@ -430,7 +443,7 @@ func runC09(c *Ctx) {
 	id := 0
 	// ---- (a) operand watch, native entry points
 	var watch []ctCase
-	for _, g := range []ctConfig{{"hotp", 6, 0, 0, false}, {"hotp", 8, 2, 1, false}, {"hotp", 10, 1, 2, false}, {"totp", 6, 0, 0, false}, {"totp", 9, 2, 1, false}, {"ocra", 6, 0, 0, false}, {"ocra", 10, 0, 2, false}, {"ocra", 8, 0, 1, false}} {
+	for _, g := range []ctConfig{{"hotp", 6, 0, 0, false, 0}, {"hotp", 8, 2, 1, false, 0}, {"hotp", 10, 1, 2, false, 0}, {"totp", 6, 0, 0, false, 0}, {"totp", 9, 2, 1, false, 0}, {"ocra", 6, 0, 0, false, 0}, {"ocra", 10, 0, 2, false, 0}, {"ocra", 8, 0, 1, false, 0}, {"hotp", 6, 0, 0, false, 2}} {
 		watch = append(watch, buildCTCases(rng, g, false, &id)...)
 	}
 	o, err := runGDB(c, "watch-native", "driver", drv, []string{writeCases(c, "watch-native", watch)}, nil, 5*time.Minute, nil)
@@ -446,7 +459,7 @@ func runC09(c *Ctx) {
 	}
 	// ---- (b) instruction-count differential, native entry points
 	// both rendering paths of the library (<= 8 digits / > 8 digits) are covered in quick
-	cfgs := []ctConfig{{"hotp", 10, 1, 0, false}, {"totp", 9, 0, 1, false}, {"ocra", 6, 0, 0, false}, {"hotp", 6, 0, 2, false}, {"totp", 8, 1, 0, false}}
+	cfgs := []ctConfig{{Target: "hotp", Digits: 10, Skew: 1}, {Target: "totp", Digits: 9, Algo: 1}, {Target: "ocra", Digits: 6}, {Target: "hotp", Digits: 6, Algo: 2, LeadingZeros: 2}, {Target: "totp", Digits: 8, Skew: 1}}
 	ctBothFamilies = c.Thorough
 	if c.Thorough {
 		cfgs = nil
@@ -456,10 +469,11 @@ func runC09(c *Ctx) {
 				if t != "ocra" && d%2 == 0 {
 					sk = 2
 				}
-				cfgs = append(cfgs, ctConfig{t, d, sk, (d + len(t)) % 3, false})
+				cfgs = append(cfgs, ctConfig{t, d, sk, (d + len(t)) % 3, false, 0})
 			}
 		}
-		cfgs = append(cfgs, ctConfig{"hotp", 7, 0, 0, false}, ctConfig{"hotp", 4, 1, 1, false}, ctConfig{"totp", 1, 0, 0, false})
+		cfgs = append(cfgs, ctConfig{"hotp", 7, 0, 0, false, 0}, ctConfig{"hotp", 4, 1, 1, false, 0}, ctConfig{"totp", 1, 0, 0, false, 0},
+			ctConfig{"hotp", 8, 0, 0, false, 3}, ctConfig{"totp", 10, 0, 2, false, 2}, ctConfig{"hotp", 9, 1, 1, false, 1})
 	}
 	var cnt []ctCase
 	for _, g := range cfgs {
@@ -479,13 +493,15 @@ func runC09(c *Ctx) {
 		r.Inconclusive("wasm binding (native overlay build) not available: its validation path is not monitored in this run")
 	} else {
 		var ww []ctCase
-		for _, g := range []ctConfig{{"hotp", 6, 2, 0, true}, {"totp", 10, 1, 2, true}, {"hotp", 9, 0, 1, true}} {
+		for _, g := range []ctConfig{{"hotp", 6, 2, 0, true, 0}, {"totp", 10, 1, 2, true, 0}, {"hotp", 9, 0, 1, true, 0}} {
 			ww = append(ww, buildCTCases(rng, g, false, &id)...)
 		}
-		wc := buildCTCases(rng, ctConfig{"hotp", 6, 1, 0, true}, true, &id)
+		wc := buildCTCases(rng, ctConfig{"hotp", 6, 1, 0, true, 0}, true, &id)
+		wc = append(wc, buildCTCases(rng, ctConfig{"hotp", 6, 0, 1, true, 2}, true, &id)...)
 		if c.Thorough {
-			wc = append(wc, buildCTCases(rng, ctConfig{"totp", 10, 0, 2, true}, true, &id)...)
-			wc = append(wc, buildCTCases(rng, ctConfig{"hotp", 8, 0, 1, true}, true, &id)...)
+			wc = append(wc, buildCTCases(rng, ctConfig{"totp", 10, 0, 2, true, 0}, true, &id)...)
+			wc = append(wc, buildCTCases(rng, ctConfig{"hotp", 8, 0, 1, true, 0}, true, &id)...)
+			wc = append(wc, buildCTCases(rng, ctConfig{"totp", 9, 0, 0, true, 3}, true, &id)...)
 		}
 		all := append(append([]ctCase{}, ww...), wc...)
 		outp := filepath.Join(c.Env["VERIF_SCRATCH"], "ct-wasm.res.json")
